@@ -42,30 +42,46 @@ type profile struct {
 	pAlias     float64 // two live objects share a uid
 	pKeep      float64 // live objects with a deletion-prevention annotation (default 0.15)
 	pStall     float64 // a wait that is followed by another layer loses the deliveries of one object and times out
+	pMassStall float64 // a wait with two or more objects times out with most of them still pending (default 0.06)
+	pEmpty     float64 // apply runs with an empty (or unrelated single-object) apply set: prune everything (default 0.06)
 }
 
 var profiles = map[string]profile{
 	"C01": {name: "C01", runsMin: 1, runsMax: 2, pDestroy: 0.3, pNoPrune: 0.3, dry: []Dry{DNone, DNone, DNone, DNone, DNone, DClient, DServer},
-		pSSA: 0.2, pInvalid: 0.2, pBadGraph: 0.1, pLiveBad: 0.15, pDeps: 0.2, varied: true, pTimeouts: 0.3, faults: "enum", pCRD: 0.1, pKeep: 0.3},
+		pSSA: 0.2, pInvalid: 0.2, pBadGraph: 0.1, pLiveBad: 0.15, pDeps: 0.2, varied: true, pTimeouts: 0.3, faults: "enum", pCRD: 0.1, pKeep: 0.3, pMassStall: 0.15},
 	"C02": {name: "C02", runsMin: 1, runsMax: 2, pDestroy: 0.4, pNoPrune: 0.1, dry: []Dry{DNone},
-		pSSA: 0.2, pInvalid: 0.05, pBadGraph: 0.03, pLiveBad: 0.05, pDeps: 0.1, varied: true, pTimeouts: 0.2, faults: "none", pAlias: 0.12, pKeep: 0.35},
+		pSSA: 0.2, pInvalid: 0.05, pBadGraph: 0.03, pLiveBad: 0.05, pDeps: 0.1, varied: true, pTimeouts: 0.2, faults: "none", pAlias: 0.12, pKeep: 0.35, pEmpty: 0.15},
 	"C03": {name: "C03", runsMin: 2, runsMax: 4, pDestroy: 0.25, pNoPrune: 0.15, dry: []Dry{DNone},
 		pSSA: 0.2, pInvalid: 0.05, pBadGraph: 0.03, pLiveBad: 0.03, pDeps: 0.15, varied: false, pTimeouts: 0.1, faults: "none", pIdentical: 0.35, pCRD: 0.1, pAlias: 0.03},
 	"C04": {name: "C04", runsMin: 1, runsMax: 2, pDestroy: 0.0, pNoPrune: 0.2, dry: []Dry{DNone, DNone, DNone, DNone, DClient},
 		pSSA: 0.15, pInvalid: 0.15, pBadGraph: 0.12, pLiveBad: 0.05, pDeps: 0.5, varied: true, pTimeouts: 0.5, faults: "one", pCRD: 0.25, pStall: 0.3},
 	"C05": {name: "C05", runsMin: 1, runsMax: 2, pDestroy: 0.5, pNoPrune: 0.0, dry: []Dry{DNone, DNone, DNone, DNone, DClient},
-		pSSA: 0.1, pInvalid: 0.05, pBadGraph: 0.05, pLiveBad: 0.12, pDeps: 0.5, varied: true, pTimeouts: 0.5, faults: "one", pCRD: 0.25, pKeep: 0.25, pStall: 0.4},
+		pSSA: 0.1, pInvalid: 0.05, pBadGraph: 0.05, pLiveBad: 0.12, pDeps: 0.5, varied: true, pTimeouts: 0.5, faults: "one", pCRD: 0.25, pKeep: 0.25, pStall: 0.4, pEmpty: 0.1},
 	"C10": {name: "C10", runsMin: 1, runsMax: 3, pDestroy: 0.3, pNoPrune: 0.15, dry: []Dry{DNone, DClient, DClient, DServer, DServer},
 		pSSA: 0.5, pInvalid: 0.1, pBadGraph: 0.05, pLiveBad: 0.05, pDeps: 0.2, varied: false, pTimeouts: 0.1, faults: "none"},
 	"C11": {name: "C11", runsMin: 1, runsMax: 2, pDestroy: 0.35, pNoPrune: 0.15, dry: []Dry{DNone, DNone, DNone, DClient},
 		pSSA: 0.15, pInvalid: 0.7, pBadGraph: 0.45, pLiveBad: 0.4, pDeps: 0.35, varied: false, pTimeouts: 0.1, faults: "none", pCRD: 0.15},
 	"C12": {name: "C12", runsMin: 1, runsMax: 2, pDestroy: 0.3, pNoPrune: 0.1, dry: []Dry{DNone},
-		pSSA: 0.15, pInvalid: 0.05, pBadGraph: 0.03, pLiveBad: 0.03, pDeps: 0.3, varied: true, pTimeouts: 0.6, faults: "none", pCancel: 0.6, pWatchErr: 0.2},
+		pSSA: 0.15, pInvalid: 0.05, pBadGraph: 0.03, pLiveBad: 0.03, pDeps: 0.3, varied: true, pTimeouts: 0.6, faults: "none", pCancel: 0.6, pWatchErr: 0.2, pMassStall: 0.35},
 	"C13": {name: "C13", runsMin: 1, runsMax: 3, pDestroy: 0.3, pNoPrune: 0.2, dry: []Dry{DNone, DNone, DNone, DNone, DClient, DServer},
-		pSSA: 0.2, pInvalid: 0.25, pBadGraph: 0.15, pLiveBad: 0.1, pDeps: 0.3, varied: true, pTimeouts: 0.4, faults: "pairs", pCancel: 0.25, pWatchErr: 0.3, pCRD: 0.1, pKeep: 0.25},
+		pSSA: 0.2, pInvalid: 0.25, pBadGraph: 0.15, pLiveBad: 0.1, pDeps: 0.3, varied: true, pTimeouts: 0.4, faults: "pairs", pCancel: 0.25, pWatchErr: 0.3, pCRD: 0.1, pKeep: 0.25, pMassStall: 0.15},
 }
 
 func chance(r *rand.Rand, p float64) bool { return r.Float64() < p }
+
+func (p profile) massStallProb() float64 {
+	if p.pMassStall > 0 {
+		return p.pMassStall
+	}
+	return 0.06
+}
+
+func (p profile) emptyProb() float64 {
+	if p.pEmpty > 0 {
+		return p.pEmpty
+	}
+	return 0.06
+}
 
 func (p profile) keepProb() float64 {
 	if p.pKeep > 0 {
@@ -248,6 +264,22 @@ func genCluster(r *rand.Rand, p profile, u Universe) Cluster {
 
 func genLocals(r *rand.Rand, p profile, u Universe, cur Cluster) []LObj {
 	var ls []LObj
+	if cur.HasInv && len(cur.Inv) > 0 && chance(r, p.emptyProb()) {
+		// apply nothing / prune everything; half of the time with one object
+		// outside the inventory's namespace
+		if chance(r, 0.5) {
+			var cand []int
+			for i, e := range u {
+				if !e.FInv && e.Meta.Namespace != invNS && i != u.InvNs() {
+					cand = append(cand, i)
+				}
+			}
+			if len(cand) > 0 {
+				ls = append(ls, LObj{ID: cand[r.Intn(len(cand))], Ver: 1 + r.Intn(3)})
+			}
+		}
+		return ls
+	}
 	pIn := []float64{0.35, 0.6, 0.85}[r.Intn(3)]
 	order := r.Perm(len(u)) // edges go from later to earlier positions of this permutation: acyclic
 	pos := make([]int, len(u))
@@ -448,7 +480,8 @@ func genWait(r *rand.Rand, base WSched, prune bool, timeoutOn, varied bool) WSch
 	return w
 }
 
-func genEnv(r *rand.Rand, p profile, o Opts, cur Cluster, probe RunResult) Env {
+func genEnv(r *rand.Rand, p profile, op *Opts, cur Cluster, probe RunResult) Env {
+	o := *op
 	env := Env{WatchErrAt: -1}
 	kinds := waitKinds(probe.Plan)
 	for k, base := range probe.Waits {
@@ -483,6 +516,47 @@ func genEnv(r *rand.Rand, p profile, o Opts, cur Cluster, probe RunResult) Env {
 			}
 		}
 		w.Deliv, w.End = keep, WTimeout
+	}
+	// a mass stall: a wait over two or more objects runs into its timeout with
+	// most of them pending (no deliveries, or deliveries that do not reconcile)
+	if chance(r, p.massStallProb()) {
+		var wide []int
+		for k, w := range probe.Waits {
+			if len(w.Deliv) >= 2 {
+				wide = append(wide, k)
+			}
+		}
+		if len(wide) > 0 {
+			k := wide[r.Intn(len(wide))]
+			prune := kinds[k]
+			if prune {
+				op.PruneTimeout = true
+			} else {
+				op.RecTimeout = true
+			}
+			var ds []SObs
+			spare := -1
+			if len(probe.Waits[k].Deliv) > 2 && chance(r, 0.4) {
+				spare = r.Intn(len(probe.Waits[k].Deliv)) // one object of the layer does reconcile
+			}
+			for i, d := range probe.Waits[k].Deliv {
+				uid := d.UID
+				if c := cur.Find(d.ID); prune && c != nil {
+					uid = c.UID
+				}
+				switch {
+				case i == spare:
+					ds = append(ds, d)
+				case chance(r, 0.5):
+					// silent
+				case prune:
+					ds = append(ds, SObs{ID: d.ID, St: STerminating, Body: true, UID: uid, Gen: objGen})
+				default:
+					ds = append(ds, SObs{ID: d.ID, St: SInProgress, Body: true, UID: uid, Gen: objGen})
+				}
+			}
+			env.Waits[k] = WSched{Deliv: ds, End: WTimeout}
+		}
 	}
 	if chance(r, p.pCancel) {
 		var targets, dels []int
@@ -670,6 +744,8 @@ type collector struct {
 	checkBoth bool
 	thorough  bool
 	results   []RunResult // kept to look for late requests at the end
+	execs     int
+	twice     int
 }
 
 // run executes a scenario on the store; with checkBoth it is first executed
@@ -677,7 +753,8 @@ type collector struct {
 func (c *collector) run(st *Store, sc Scenario) RunResult {
 	t0 := time.Now()
 	var first *RunResult
-	if c.checkBoth {
+	c.execs++
+	if c.checkBoth && (c.execs%2 == 1 || c.runs < 40) {
 		r1 := ExecRun(st.Clone(), sc)
 		first = &r1
 	}
@@ -687,6 +764,9 @@ func (c *collector) run(st *Store, sc Scenario) RunResult {
 	c.results = append(c.results, res)
 	if first != nil {
 		c.results = append(c.results, *first)
+	}
+	if first != nil {
+		c.twice++
 	}
 	if first != nil && first.Out.Coq() != res.Out.Coq() {
 		// a third execution is not possible on the same state; report both
@@ -807,6 +887,30 @@ func (c *collector) fixedHistory(u Universe, init Cluster, runs []fixedRun) {
 	c.add(h)
 }
 
+// stalledHistory: one run in which no object of any wait reconciles (prune
+// waits see Terminating for every second object) and every wait times out.
+func (c *collector) stalledHistory(u Universe, init Cluster, fr fixedRun) {
+	st := NewStore(u, init)
+	sc := Scenario{Univ: u, Local: fr.local, Opts: fr.opts}
+	probe := Probe(st, sc)
+	c.probes++
+	sc.Env = Env{WatchErrAt: -1}
+	kinds := waitKinds(probe.Plan)
+	for k, w := range probe.Waits {
+		ws := WSched{End: WTimeout}
+		for i, d := range w.Deliv {
+			if kinds[k] && i%2 == 0 {
+				ws.Deliv = append(ws.Deliv, SObs{ID: d.ID, St: STerminating, Body: true, UID: init.Find(d.ID).UID, Gen: objGen})
+			}
+		}
+		sc.Env.Waits = append(sc.Env.Waits, ws)
+	}
+	res := c.run(st, sc)
+	c.count(sc, res)
+	c.sum.Count("corpus")
+	c.add(History{Univ: u, Initial: init, Runs: []Scenario{sc}, Outs: []Outcome{res.Out}})
+}
+
 func (c *collector) corpus() {
 	// 1. NoPrune: previously {a, b}, now apply {a}
 	u := NewUniverse([]UEntry{Entry("ConfigMap", invNS, "cm-a"), Entry("ConfigMap", invNS, "cm-b")})
@@ -864,6 +968,23 @@ func (c *collector) corpus() {
 	c.fixedHistory(u, Cluster{NextUID: 100}, []fixedRun{{local: []LObj{{ID: 0, Ver: 1}, {ID: 1, Ver: 1, Deps: []int{0}}},
 		opts: Opts{Prune: true, Policy: PMustMatch}, watchErr: 1}})
 	c.fixedHistory(u, two, []fixedRun{{opts: Opts{Destroy: true, Prune: true, Policy: PMustMatch}, watchErr: 1}})
+	// 9. apply nothing / prune everything while the inventory tracks its own namespace object
+	u4 := NewUniverse([]UEntry{Entry("Namespace", "", invNS), Entry("ConfigMap", invNS, "cm-a"), Entry("ConfigMap", otherNS, "cm-a")})
+	nsTracked := Cluster{NextUID: 100, HasInv: true, Inv: []int{0, 1}, Objs: []CObj{
+		CObj{ID: 0, UID: 1, Owner: OOurs, Ver: 1}.Applied(), CObj{ID: 1, UID: 2, Owner: OOurs, Ver: 1}.Applied()}}
+	c.fixedHistory(u4, nsTracked, []fixedRun{{opts: Opts{Prune: true, Policy: PMustMatch}}})
+	c.fixedHistory(u4, nsTracked, []fixedRun{{local: []LObj{{ID: 2, Ver: 1}}, opts: Opts{Prune: true, Policy: PAdoptAll}}})
+	// 10. a wait over several objects times out with all of them pending (apply, prune, destroy)
+	u5 := NewUniverse([]UEntry{Entry("ConfigMap", invNS, "cm-a"), Entry("ConfigMap", invNS, "cm-b"), Entry("Secret", invNS, "sec-a"), Entry("ClusterRole", "", "cr-a")})
+	four := Cluster{NextUID: 100, HasInv: true, Inv: []int{0, 1, 2, 3}}
+	var four4 []LObj
+	for i := range u5 {
+		four.Objs = append(four.Objs, CObj{ID: i, UID: uint64(i + 1), Owner: OOurs, Ver: 1}.Applied())
+		four4 = append(four4, LObj{ID: i, Ver: 2})
+	}
+	c.stalledHistory(u5, four, fixedRun{local: four4, opts: Opts{Prune: true, Policy: PMustMatch, RecTimeout: true}})
+	c.stalledHistory(u5, four, fixedRun{local: four4[:1], opts: Opts{Prune: true, Policy: PMustMatch, RecTimeout: true, PruneTimeout: true}})
+	c.stalledHistory(u5, four, fixedRun{opts: Opts{Destroy: true, Prune: true, Policy: PMustMatch, PruneTimeout: true}})
 	// a plain round trip: apply two, apply one (prune), destroy
 	c.fixedHistory(u, Cluster{NextUID: 100}, []fixedRun{
 		{local: []LObj{{ID: 0, Ver: 1}, {ID: 1, Ver: 1, Deps: []int{0}}}, opts: Opts{Prune: true, Policy: PMustMatch}},
@@ -914,7 +1035,7 @@ func (c *collector) base(r *rand.Rand, p profile, budget *int) {
 		}
 		probe := Probe(st, sc)
 		c.probes++
-		sc.Env = genEnv(r, p, sc.Opts, cur, probe)
+		sc.Env = genEnv(r, p, &sc.Opts, cur, probe)
 		if k == enumAt {
 			c.variants(r, p, st, h, sc, probe, budget)
 		}
@@ -1026,9 +1147,9 @@ func runProfile(p profile, seed int64, tier, outDir string) (*emit.Summary, erro
 		time.Sleep(5 * time.Millisecond)
 		c.baseG = runtime.NumGoroutine()
 	}
-	budget := 260
+	budget := 780
 	if tier == "thorough" {
-		budget = 2600
+		budget = 6000
 	}
 	t0 := time.Now()
 	c.corpus()
@@ -1078,7 +1199,7 @@ func runProfile(p profile, seed int64, tier, outDir string) (*emit.Summary, erro
 	sum.Extra["probe_runs"] = c.probes
 	sum.Extra["run_rate_per_s"] = fmt.Sprintf("%.1f", float64(c.runs)/elapsed.Seconds())
 	sum.Extra["ms_per_run"] = fmt.Sprintf("%.1f", float64(c.execTime.Milliseconds())/float64(max(c.runs, 1)))
-	sum.Extra["determinism"] = fmt.Sprintf("every run executed twice from the same state: %v; differing traces: %d", c.checkBoth, len(c.flaky))
+	sum.Extra["determinism"] = fmt.Sprintf("%d of %d runs executed twice from the same state; differing traces: %d", c.twice, c.runs, len(c.flaky))
 	if len(c.flaky) > 0 {
 		sum.Extra["flaky"] = c.flaky
 	}
